@@ -311,6 +311,71 @@ pub unsafe extern "C" fn madvise(addr: *mut c_void, len: size_t, advice: c_int) 
     r
 }
 
+unsafe fn register_block(p: usize, size: usize, zero_fill: bool) {
+    let s = st();
+    if zero_fill {
+        // glibc hands back dirty memory: zero-fill, so that a non-zero byte seen
+        // at release was written by the program
+        std::ptr::write_bytes(p as *mut u8, 0, size);
+    }
+    let mut placed = false;
+    for b in s.blocks[..s.nblocks].iter_mut() {
+        if !b.live && b.base == p && b.size == size {
+            b.live = true;
+            placed = true;
+            break;
+        }
+    }
+    if !placed {
+        if s.nblocks < MAX_BLOCKS {
+            s.blocks[s.nblocks] = Block { base: p, size, live: true };
+            s.nblocks += 1;
+        } else {
+            s.overflow = true;
+        }
+    }
+    record(Rec { kind: CallKind::Memalign, addr: p, len: size, arg: 0, ret: 0, injected: false });
+}
+
+/// Inspect [base, base+size) through /proc/self/mem (ignores page protections) and log the release.
+unsafe fn inspect_release(base: usize, size: usize, block_base: usize, block_size: usize) {
+    let s = st();
+    let mut buf = [0u8; 4096];
+    let mut off = 0usize;
+    let mut nz = 0usize;
+    let mut first = usize::MAX;
+    let mut last = 0usize;
+    let mut nzg = 0usize;
+    while off < size {
+        let n = (size - off).min(buf.len());
+        let r = libc::pread(s.mem_fd, buf.as_mut_ptr() as *mut c_void, n, (base + off) as libc::off_t);
+        if r <= 0 {
+            break;
+        }
+        for (j, x) in buf[..r as usize].iter().enumerate() {
+            if *x != 0 {
+                nz += 1;
+                let o = base + off + j - block_base;
+                if first == usize::MAX {
+                    first = o;
+                }
+                last = o;
+                if o < s.page || o >= block_size - s.page {
+                    nzg += 1;
+                }
+            }
+        }
+        off += r as usize;
+    }
+    if s.nrels < MAX_RELS {
+        s.rels[s.nrels] = Release { base: block_base, size: block_size, nonzero: nz, first_nonzero_off: if first == usize::MAX { 0 } else { first }, last_nonzero_off: last, nonzero_guard: nzg };
+        s.nrels += 1;
+    } else {
+        s.overflow = true;
+    }
+    record(Rec { kind: CallKind::Free, addr: base, len: size, arg: nz as i32, ret: 0, injected: false });
+}
+
 #[no_mangle]
 pub unsafe extern "C" fn posix_memalign(out: *mut *mut c_void, align: size_t, size: size_t) -> c_int {
     let p = __libc_memalign(align, size);
@@ -321,29 +386,27 @@ pub unsafe extern "C" fn posix_memalign(out: *mut *mut c_void, align: size_t, si
     if ARMED.load(Ordering::Relaxed) {
         let s = st();
         if align == s.page && size >= 3 * s.page {
-            // glibc hands back dirty memory: zero-fill, so that a non-zero byte seen
-            // at release was written by the program
-            std::ptr::write_bytes(p as *mut u8, 0, size);
-            let mut placed = false;
-            for b in s.blocks[..s.nblocks].iter_mut() {
-                if !b.live && b.base == p as usize && b.size == size {
-                    b.live = true;
-                    placed = true;
-                    break;
-                }
-            }
-            if !placed {
-                if s.nblocks < MAX_BLOCKS {
-                    s.blocks[s.nblocks] = Block { base: p as usize, size, live: true };
-                    s.nblocks += 1;
-                } else {
-                    s.overflow = true;
-                }
-            }
-            record(Rec { kind: CallKind::Memalign, addr: p as usize, len: size, arg: 0, ret: 0, injected: false });
+            register_block(p as usize, size, true);
         }
     }
     0
+}
+
+#[no_mangle]
+pub unsafe extern "C" fn memalign(align: size_t, size: size_t) -> *mut c_void {
+    let p = __libc_memalign(align, size);
+    if !p.is_null() && ARMED.load(Ordering::Relaxed) {
+        let s = st();
+        if align == s.page && size >= 3 * s.page {
+            register_block(p as usize, size, true);
+        }
+    }
+    p
+}
+
+#[no_mangle]
+pub unsafe extern "C" fn aligned_alloc(align: size_t, size: size_t) -> *mut c_void {
+    memalign(align, size)
 }
 
 #[no_mangle]
@@ -360,44 +423,60 @@ pub unsafe extern "C" fn free(p: *mut c_void) {
         if let Some(i) = hit {
             let b = s.blocks[i];
             s.blocks[i].live = false;
-            // inspect the whole block through /proc/self/mem (ignores page protections)
-            let mut buf = [0u8; 4096];
-            let mut off = 0usize;
-            let mut nz = 0usize;
-            let mut first = usize::MAX;
-            let mut last = 0usize;
-            let mut nzg = 0usize;
-            while off < b.size {
-                let n = (b.size - off).min(buf.len());
-                let r = libc::pread(s.mem_fd, buf.as_mut_ptr() as *mut c_void, n, (b.base + off) as libc::off_t);
-                if r <= 0 {
-                    break;
-                }
-                for (j, x) in buf[..r as usize].iter().enumerate() {
-                    if *x != 0 {
-                        nz += 1;
-                        let o = off + j;
-                        if first == usize::MAX {
-                            first = o;
-                        }
-                        last = o;
-                        if o < s.page || o >= b.size - s.page {
-                            nzg += 1;
-                        }
-                    }
-                }
-                off += r as usize;
-            }
-            if s.nrels < MAX_RELS {
-                s.rels[s.nrels] = Release { base: b.base, size: b.size, nonzero: nz, first_nonzero_off: if first == usize::MAX { 0 } else { first }, last_nonzero_off: last, nonzero_guard: nzg };
-                s.nrels += 1;
-            } else {
-                s.overflow = true;
-            }
-            record(Rec { kind: CallKind::Free, addr: b.base, len: b.size, arg: nz as i32, ret: 0, injected: false });
+            inspect_release(b.base, b.size, b.base, b.size);
         }
     }
     __libc_free(p)
+}
+
+// An allocator may also take its pages straight from the kernel: anonymous
+// mappings made inside a dryoc call are blocks too, and munmap is their release.
+#[no_mangle]
+pub unsafe extern "C" fn mmap(addr: *mut c_void, len: size_t, prot: c_int, flags: c_int, fd: c_int, off: libc::off_t) -> *mut c_void {
+    let r = libc::syscall(libc::SYS_mmap, addr, len, prot, flags, fd, off);
+    let p = r as *mut c_void;
+    if ARMED.load(Ordering::Relaxed) && p != libc::MAP_FAILED && (flags & libc::MAP_ANONYMOUS) != 0 {
+        let s = st();
+        if len >= 3 * s.page {
+            // fresh anonymous pages are zero already (and may be PROT_NONE): do not touch them
+            register_block(p as usize, len, false);
+        }
+    }
+    p
+}
+
+#[no_mangle]
+pub unsafe extern "C" fn mmap64(addr: *mut c_void, len: size_t, prot: c_int, flags: c_int, fd: c_int, off: libc::off_t) -> *mut c_void {
+    mmap(addr, len, prot, flags, fd, off)
+}
+
+#[no_mangle]
+pub unsafe extern "C" fn munmap(addr: *mut c_void, len: size_t) -> c_int {
+    if ARMED.load(Ordering::Relaxed) && len > 0 {
+        let s = st();
+        let a = addr as usize;
+        for i in 0..s.nblocks {
+            let b = s.blocks[i];
+            if b.live && a < b.base + b.size && b.base < a + len {
+                let lo = a.max(b.base);
+                let hi = (a + len).min(b.base + b.size);
+                inspect_release(lo, hi - lo, b.base, b.size);
+                if lo == b.base && hi == b.base + b.size {
+                    s.blocks[i].live = false;
+                } else if lo == b.base {
+                    // front part unmapped: the block shrinks
+                    s.blocks[i].base = hi;
+                    s.blocks[i].size = b.base + b.size - hi;
+                } else if hi == b.base + b.size {
+                    s.blocks[i].size = lo - b.base;
+                } else {
+                    // a hole in the middle: keep the front part, the rest is no longer tracked
+                    s.blocks[i].size = lo - b.base;
+                }
+            }
+        }
+    }
+    libc::syscall(libc::SYS_munmap, addr, len) as c_int
 }
 
 // ---------------------------------------------------------------------------
